@@ -38,7 +38,17 @@ Addrs == <<"a", "b", "c", "m">>          \* m = block proposer
 AddrSet == {"a", "b", "c", "m"}
 Fee == "$"
 Miner == "m"
-Award == 1
+(* The award schedule of the chain (genesis "award" / "award_decay"): base amount, multiplied by num / den every gap
+   blocks and rounded half up, as Ledger.CalcAward rounds (gap 0 = no decay).  Configurations that exercise the decay
+   substitute DecaySched for AwardSched. *)
+AwardSched == [base |-> 1, gap |-> 0, num |-> 1, den |-> 1]
+DecaySched == [base |-> 1000, gap |-> 2, num |-> 3, den |-> 4]
+RECURSIVE IPow(_, _)
+IPow(a, k) == IF k = 0 THEN 1 ELSE a * IPow(a, k - 1)
+AwardAt(h) == IF AwardSched.gap = 0 THEN AwardSched.base
+              ELSE LET k == h \div AwardSched.gap IN
+                   (2 * AwardSched.base * IPow(AwardSched.num, k) + IPow(AwardSched.den, k)) \div (2 * IPow(AwardSched.den, k))
+AwardsUpTo(h) == FoldLeft(LAMBDA acc, i : acc + AwardAt(i), 0, [i \in 1..h |-> i])     \* awards of the blocks at heights 1..h
 FrozenAt == 3
 
 (* ---- transaction catalogue ------------------------------------------------------------------ *)
@@ -157,7 +167,8 @@ Unapply(s, t) ==
    total |-> s.total]
 FeeU(t) == {MkU(Miner, t, i) : i \in FeeOuts(t)}                   \* payFee / undoPayFee
 AwardName(b) == "aw" \o ToString(b)
-AwardU(b) == [ad |-> Miner, t |-> AwardName(b), o |-> 0, amt |-> Award, fz |-> 0]
+AwardUH(b, h) == [ad |-> Miner, t |-> AwardName(b), o |-> 0, amt |-> AwardAt(h), fz |-> 0]
+AwardU(b) == AwardUH(b, blk[b].height)
 
 (* dependency order inside a set of mutually conflict-free transactions *)
 DependsOn(t, u) == (\E i \in TX[t].ins : i[1] = u) \/ (\E k \in Keys : TX[t].reads[k] = u)
@@ -182,9 +193,9 @@ PlayTxs(s, seq, skip, lh) ==
              ELSE [ok |-> TRUE, s |-> [Apply(acc.s, t) EXCEPT !.utxo = @ \cup FeeU(t)]],
            [ok |-> TRUE, s |-> s], seq)
 PlayBlock(s, b, skip, lh) ==
-  PlayTxs([s EXCEPT !.utxo = @ \cup {AwardU(b)}, !.total = @ + Award], blk[b].txs, skip, lh)
+  PlayTxs([s EXCEPT !.utxo = @ \cup {AwardU(b)}, !.total = @ + AwardAt(blk[b].height)], blk[b].txs, skip, lh)
 UndoTxs(s, seq) == FoldLeft(LAMBDA acc, t : [Unapply(acc, t) EXCEPT !.utxo = @ \ FeeU(t)], s, Reverse(seq))
-UndoBlock(s, b) == LET s1 == UndoTxs(s, blk[b].txs) IN [s1 EXCEPT !.utxo = @ \ {AwardU(b)}, !.total = @ - Award]
+UndoBlock(s, b) == LET s1 == UndoTxs(s, blk[b].txs) IN [s1 EXCEPT !.utxo = @ \ {AwardU(b)}, !.total = @ - AwardAt(blk[b].height)]
 
 (* what a fresh node obtains by playing genesis..b in order (frozen check against each block's own
    height - 1 = the ledger height a node extending its chain sees) *)
@@ -196,7 +207,7 @@ Replay(b) == FoldLeft(LAMBDA acc, x : IF ~acc.ok THEN acc
                       [ok |-> TRUE, s |-> S0], BlocksTo(b))
 (* the same fold without validity checks (equals Replay where Replay succeeds) *)
 ForceTxs(s, seq) == FoldLeft(LAMBDA acc, t : [Apply(acc, t) EXCEPT !.utxo = @ \cup FeeU(t)], s, seq)
-ForceReplay(b) == FoldLeft(LAMBDA acc, x : ForceTxs([acc EXCEPT !.utxo = @ \cup {AwardU(x)}, !.total = @ + Award], blk[x].txs),
+ForceReplay(b) == FoldLeft(LAMBDA acc, x : ForceTxs([acc EXCEPT !.utxo = @ \cup {AwardU(x)}, !.total = @ + AwardAt(blk[x].height)], blk[x].txs),
                            S0, BlocksTo(b))
 NextIrr(cur, h) == IF Window = 0 THEN cur ELSE IF h - Window > cur THEN h - Window ELSE cur
 
@@ -283,7 +294,7 @@ Mine(seq) ==         \* seq = the transactions packed, in order
   /\ LET b == n + 1 IN
      /\ blk' = blk @@ (b :> [parent |-> ptr, height |-> Height(ptr) + 1, txs |-> seq]) /\ n' = b /\ ltip' = b
      /\ ptr' = b /\ pool' = pool \ Range(seq)
-     /\ utxo' = utxo \cup {AwardU(b)} \cup UNION {FeeU(t) : t \in Range(seq)} /\ total' = total + Award
+     /\ utxo' = utxo \cup {AwardUH(b, Height(ptr) + 1)} \cup UNION {FeeU(t) : t \in Range(seq)} /\ total' = total + AwardAt(Height(ptr) + 1)
      /\ UNCHANGED <<zu, zd, dev, pruned>>
      /\ applied' = applied \cup {b}
      /\ irr' = NextIrr(irr, Height(ptr) + 1)
@@ -456,7 +467,7 @@ Play(b, obsres) ==
               fresh == PlayBlock(UndoSet(St, pool), b, {}, Height(b)).ok   \* would a node without this pool play it?
               masked == KF_PoolMasksBlockOrder /\ pool # {} /\ ~fresh
               ok == IF masked THEN (IF obsres = "*" THEN r.ok ELSE obsres = "ok") ELSE r.ok /\ fresh
-              s2 == IF r.ok THEN r.s ELSE ForceTxs([base EXCEPT !.utxo = @ \cup {AwardU(b)}, !.total = @ + Award], blk[b].txs)
+              s2 == IF r.ok THEN r.s ELSE ForceTxs([base EXCEPT !.utxo = @ \cup {AwardU(b)}, !.total = @ + AwardAt(blk[b].height)], blk[b].txs)
               pool1 == (pool \ undone) \ keep            \* what processUnconfirmTxs leaves pending
               (* Known deviation KF_PlayKeepsStaleReader: a pending transaction that only READ a key version which the
                  block supersedes is not recognised as conflicting when the superseding transaction was itself pending
@@ -483,7 +494,7 @@ PlayForMiner(b) ==
   /\ IF Parent(b) # ptr
      THEN UNCHANGED <<ptr, utxo, zu, zd, total, irr, pool, applied>> /\ Log([op |-> "pfm", b |-> b, res |-> "fail"])
      ELSE /\ ptr' = b /\ pool' = pool \ TxsOf(b)
-          /\ utxo' = utxo \cup {AwardU(b)} \cup UNION {FeeU(t) : t \in TxsOf(b)} /\ total' = total + Award
+          /\ utxo' = utxo \cup {AwardU(b)} \cup UNION {FeeU(t) : t \in TxsOf(b)} /\ total' = total + AwardAt(blk[b].height)
           /\ UNCHANGED <<zu, zd>>
           /\ applied' = applied \cup {b}
           /\ irr' = NextIrr(irr, Height(b))
@@ -550,7 +561,7 @@ Core(s) == [utxo |-> s.utxo, keys |-> [k \in Keys |-> KeyObs(s, k)], total |-> s
 PureFn == LET r == Replay(ptr) IN r.ok /\ Core(UndoSet(St, pool)) = Core(r.s)
 (* C02: conservation *)
 Conservation == /\ SumAmt(utxo) + PendingFees = total
-                /\ total = GenesisTotal + Award * (Height(ptr))
+                /\ total = GenesisTotal + AwardsUpTo(Height(ptr))
 (* C03: no two admitted transactions (main chain of ptr or pool) consume the same output or key version *)
 Admitted == pool \cup UNION {TxsOf(a) : a \in Anc(ptr)}
 Supersedes(t, k) == TX[t].writes[k] # NoRd
